@@ -1,4 +1,4 @@
 \* exhaustive, price focus, thorough tier: prices {1,2,3}, zone zb same / overlay-priced / unavailable / not offered
-CONSTANTS NTypes = 2  Prices = {1, 2, 3}  ZMods = {"same", "dear", "unavail", "none"}  MaxCands = 2  MinS2S = 2  Focus = "price"  Weak = ""  GenMod = 1  GenRes = 0
+CONSTANTS NTypes = 2  Prices = {1, 2, 3}  ZMods = {"same", "dear", "unavail", "none"}  MaxCands = 2  MinS2S = 2  Focus = "price"  UnavCTs = {}  Weak = ""  GenMod = 1  GenRes = 0
 SPECIFICATION Spec
 INVARIANTS TypeOK Inv_C06_CostDecreases Inv_C06_AtMostOneLaunch Inv_C06_SpotToSpotFeature Inv_C06_SpotToSpotAlternatives Inv_C06_SpotToSpotSettles Inv_C06_NotWorseThanKeeping Inv_C06_EmptyHarmless Inv_C06_PodsSchedulable
